@@ -161,9 +161,12 @@ def main(argv=None):
             inconclusive.append("config %s explored no path (vacuous)" % r["cfg"]["name"])
         # ---- replay candidate counter-examples on the real code
         confirmed_here = 0
+        tried_here = 0
         for f in r["findings"]:
-            if nrep >= 12 or confirmed_here >= 2:
+            # at most 3 replays per configuration, 80 per run, and none once enough violations are confirmed
+            if nrep >= 80 or tried_here >= 3 or confirmed_here >= 1 or len(violations) >= 4:
                 break
+            tried_here += 1
             nrep += 1
             path, res, err = _replay(modname, r["cfg"], f, nrep, a.prop)
             if res is None:
